@@ -30,7 +30,7 @@ theorem addCode_same (s : St) (f : Nat) (code : Code) :
     (s.addCode f code).core.abs.hits = s.core.abs.hits ∧ (s.addCode f code).core.abs.last = s.core.abs.last := by
   unfold St.addCode
   simp only
-  have := regLines_same (padStep s.dupes (s.chm.map (·.1.blk)) code).1 (padStep s.dupes (s.chm.map (·.1.blk)) code).1.allLines (s.core, s.chm)
+  have := regLines_same (padStep s.dupes (s.chm.map (·.1)) code).1 (padStep s.dupes (s.chm.map (·.1)) code).1.allLines (s.core, s.chm)
   exact ⟨this.1, this.2.1⟩
 
 theorem closed_congr (s s' : Core.St) (lines : List Int) (b : Blk) (l : Int) (h : s'.hits = s.hits) :
